@@ -26,7 +26,9 @@ RULE = ('Hypothesis draws lists of 1-8 regions over the ten DS9 shapes (+ '
         'in, class/frame, every number within half a unit of the requested '
         'precision in the serialised unit (semi-axes for ellipses; last '
         'mantissa digit for scientific notation), text/tags/include sense; '
-        'parse(ser(P1)) == P1 and ser stable; determinism in-process and '
+        'parse(ser(P1)) == P1 and ser stable; parsed regions that are then '
+        'EDITED (text / tag / include / line width deleted or replaced) '
+        'serialise as what they now are; determinism in-process and '
         'across child interpreters with PYTHONHASHSEED 0/1/2; skipped members '
         'leave the rest of the text unchanged. Non-trivial: >= 2 regions with '
         'a hoisted and a non-hoisted item, or include false, or rounding '
@@ -202,6 +204,7 @@ def compare_geometry(ctx, tag, A, B, p):
 
 
 class RoundTrip(Relation):
+    _edited = None
     name = 'C09.roundtrip'
     examples = {'quick': 300, 'thorough': 5000}
     shards = {'quick': 8, 'thorough': 16}
@@ -212,6 +215,7 @@ class RoundTrip(Relation):
             'precision': st.integers(1, 12),
             'share': st.sampled_from(['different', 'all_equal', 'partly']),
             'regions': st.lists(decorated(), min_size=1, max_size=n),
+            'edits': st.lists(st.integers(0, 7), min_size=1, max_size=n),
         })
 
     def check(self, sp, ctx):
@@ -306,6 +310,9 @@ class RoundTrip(Relation):
                 text2, format='ds9'), 'parse')
         ctx.check(text3 == text2, 'fixed point | serialising again changes the '
                   'text', lambda: _textdiff(text2, text3))
+        # (e) parsed regions are ordinary regions: edited (entries deleted
+        # or replaced), they serialise as what they NOW are
+        self._edited(ctx, sp, P2, p)
         # (d) determinism in-process
         again = Regions([S.build(r) for r in specs]).serialize(format='ds9',
                                                                precision=p)
@@ -314,6 +321,85 @@ class RoundTrip(Relation):
         if len(regs) >= 2 and 'global' in text:
             nt = nt or sp['share'] == 'partly'
         ctx.nontrivial(nt or p <= 6)
+
+
+def _edit_parsed(reg, kind):
+    """Edit a parsed region in place; returns a label or None (no-op)."""
+    cls = type(reg).__name__
+    m, v = reg.meta, reg.visual
+    if kind == 1 and 'text' in m and not cls.startswith('Text'):
+        del m['text']
+        return 'del text'
+    if kind == 2 and 'tag' in m:
+        del m['tag']
+        return 'del tag'
+    if kind == 3 and 'include' in m:
+        del m['include']
+        return 'del include'
+    if kind == 4 and not cls.startswith('Text'):
+        m['text'] = 'edited later'
+        return 'set text'
+    if kind == 5:
+        m['include'] = not bool(m.get('include', True))
+        return 'flip include'
+    if kind == 6 and 'linewidth' in v and not cls.startswith(('Text', 'Point')):
+        del v['linewidth']
+        return 'del linewidth'
+    if kind == 7:
+        m['tag'] = ['new tag']
+        return 'set tag'
+    return None
+
+
+def _edited(self, ctx, sp, P2, p):
+    from regions import Regions
+    E = list(P2)
+    kinds = sp.get('edits') or [0]
+    done = []
+    for i, reg in enumerate(E):
+        lab = _edit_parsed(reg, kinds[i % len(kinds)])
+        if lab:
+            done.append(lab)
+    if not done:
+        return
+    ctx.label(*{'edit:' + d for d in done})
+    textE = Regions(E).serialize(format='ds9', precision=p)
+    PE = Regions.parse(textE, format='ds9')
+    ctx.check(len(PE) == len(E), 'edited | count changes in the round trip of '
+              'edited parsed regions', textE)
+    for A, B in zip(E, PE):
+        tag = type(A).__name__
+        ctx.check(type(A) is type(B), f'{tag} | edited: class changes')
+        same = True
+        for par in A._params:
+            try:
+                same = same and not np.any(getattr(A, par) != getattr(B, par))
+            except Exception:   # noqa: BLE001
+                same = False
+        ctx.check(same or _at_notation_threshold(A, B, p),
+                  f'{tag} | edited: parameters of a parsed region change when '
+                  'it is serialised again after a metadata edit',
+                  lambda: _diff(A, B))
+        if not tag.startswith('Text'):
+            ctx.check(B.meta.get('text') == A.meta.get('text'),
+                      f'{tag} | edited: text label of an edited parsed region '
+                      'is not the one it now has',
+                      f'{A.meta.get("text")!r} -> {B.meta.get("text")!r}')
+        ctx.check((B.meta.get('tag') or []) == (A.meta.get('tag') or []),
+                  f'{tag} | edited: tags of an edited parsed region are not '
+                  'the ones it now has',
+                  f'{A.meta.get("tag")!r} -> {B.meta.get("tag")!r}')
+        ctx.check(bool(A.meta.get('include', True))
+                  == bool(B.meta.get('include', True)),
+                  f'{tag} | edited: include sense of an edited parsed region '
+                  'is not the one it now has', textE)
+        if 'linewidth' not in A.visual and not tag.startswith(('Text', 'Point')):
+            ctx.check('linewidth' not in B.visual,
+                      f'{tag} | edited: a deleted line width comes back',
+                      f'{B.visual.get("linewidth")!r}\n{textE}')
+
+
+RoundTrip._edited = _edited
 
 
 def _at_notation_threshold(A, B, p):
